@@ -89,11 +89,10 @@ Definition d_ok (d : delims) : bool :=
   && negb (is_space (hd0 (d_se d))) && negb (N.eqb (hd0 (d_se d)) hy)
   && negb (N.eqb (hd0 (d_ce d)) hy).
 
-(* a character that cannot begin an opening delimiter (and is not '{', which the content branch of the lexer
-   tests for literally, whatever the delimiters are) *)
+(* a character that cannot begin an opening delimiter *)
 Definition plain_char (d : delims) (c : N) : bool :=
   negb (N.eqb c (hd0 (d_ts d))) && negb (N.eqb c (hd0 (d_ss d)))
-  && negb (nonempty (d_cs d) && N.eqb c (hd0 (d_cs d))) && negb (N.eqb c lbrace).
+  && negb (nonempty (d_cs d) && N.eqb c (hd0 (d_cs d))).
 
 Definition plain (d : delims) (t : str) : bool := forallb (plain_char d) t.
 
